@@ -544,7 +544,7 @@ def run(ctx):
     q = ctx.tier == 'quick'
     rng = random.Random(ctx.seed * 7907 + 16)
     ctx.bounds = dict(tier=ctx.tier, dictionaries='all dictionaries over 22 leaf values (every value kind; rectangular, ragged, string, dict-valued '
-                      'sequences), 2 top-level keys, depth 2' + ('' if q else ' (2 nested keys)'),
+                      'sequences), ' + ('2 top-level keys, depth 2' if q else '3 top-level keys, depth 2; export: depth 3'),
                       random_dictionaries=400 if q else 4000, model_roundtrips=14 if q else 80,
                       spectrum_outputs='3 binners x 3 output sizes x (uniform, unsorted non-uniform, dyadic) grids')
     ctx.assumptions = ['h5py reads back what HDF5Output wrote (Load = the h5py view)', 'names are ASCII <= 64 characters without "/" and no key is another key followed by digits',
